@@ -376,12 +376,12 @@ impl Number {
     /// very digits that decide the comparison near 2^53 and beyond 2^31, so mixed
     /// comparisons are carried out exactly. None is returned only for NaN.
     fn mixed_cmp(&self, rhs: &Number) -> Option<Ordering> {
-        const EXACT_F64: i64 = 1 << 53;
+        const EXACT_F64: u64 = 1 << 53;
         match (self, rhs) {
-            (Number::Fixnum(lhs), Number::Float(rhs)) if lhs.abs() <= EXACT_F64 => {
+            (Number::Fixnum(lhs), Number::Float(rhs)) if lhs.unsigned_abs() <= EXACT_F64 => {
                 (*lhs as f64).partial_cmp(rhs)
             }
-            (Number::Float(lhs), Number::Fixnum(rhs)) if rhs.abs() <= EXACT_F64 => {
+            (Number::Float(lhs), Number::Fixnum(rhs)) if rhs.unsigned_abs() <= EXACT_F64 => {
                 lhs.partial_cmp(&(*rhs as f64))
             }
             (Number::Float(num), _) | (_, Number::Float(num)) if num.is_nan() => None,
